@@ -14,24 +14,24 @@
   Not proved here (statements for the record):
     C04_step_addEdge : Forest s → TidOK s → (∀ n t, tidOf n = some t → t ≤ maxTid) →
         (uAddEdge s e force).2 = .ok recs → TidOK (uAddEdge s e force).1   (and Forest, max bound)
-      -- same plan as C05_step_addEdge: `addTail_shape`/`addHead_shape` give the walks; needed is
-      -- the "graft" analogue of `cutTid0/1` (chain below the target joins the source's track when
+      -- same plan as C05_step_addEdge: `tk_addTail_shape`/`tk_addHead_shape` give the walks; needed is
+      -- the "graft" analogue of `tk_cutTid0/1` (chain below the target joins the source's track when
       -- the source had no child; the old child's chain gets a fresh id when a division is created)
     C04_frame_addEdge, C04_step_* for addNode / deleteNode / swap / updateSeg,
     C04_assign : Forest s → TidOK (assignTracklets s)
 -/
-import FtProofs.TrackSteps
+import FtProofs.TrackLemmas
 open Ft Ft.St
 
 /-- equal track id ⇔ same unbranched segment (from the local invariants) -/
 theorem C04_tid_iff_sameSeg {s : St} (hF : s.Forest) (hT : s.TidOK) {a b : Node}
     (ha : a ∈ s.ids) (hb : b ∈ s.ids) : s.tidOf a = s.tidOf b ↔ s.SameSeg a b :=
-  tid_iff_sameSeg hF hT ha hb
+  tk_tid_iff_sameSeg hF hT ha hb
 
-example : exState.Forest ∧ exState.TidOK ∧ (1 : Node) ∈ exState.ids ∧ (2 : Node) ∈ exState.ids ∧
-    exState.tidOf 1 = exState.tidOf 2 ∧ exState.tidOf 2 ≠ exState.tidOf 3 ∧
-    exState.tidOf 5 = exState.tidOf 6 :=
-  ⟨forestB_sound (by decide), tidOKB_sound (by decide), by decide, by decide, by decide, by decide,
+example : tk_exState.Forest ∧ tk_exState.TidOK ∧ (1 : Node) ∈ tk_exState.ids ∧ (2 : Node) ∈ tk_exState.ids ∧
+    tk_exState.tidOf 1 = tk_exState.tidOf 2 ∧ tk_exState.tidOf 2 ≠ tk_exState.tidOf 3 ∧
+    tk_exState.tidOf 5 = tk_exState.tidOf 6 :=
+  ⟨tk_forestB_sound (by decide), tk_tidOKB_sound (by decide), by decide, by decide, by decide, by decide,
    by decide⟩
 #print axioms C04_tid_iff_sameSeg
 
@@ -45,17 +45,17 @@ theorem C04_walk_segment {s : St} (hF : s.Forest) (hT : s.TidOK) {start : Node}
     (∀ n, s.Anc start n ∧ s.SameSeg start n → s'.tidOf n = some newT) ∧
     (∀ n, ¬ (s.Anc start n ∧ s.SameSeg start n) → s'.tidOf n = s.tidOf n) ∧
     s'.ids = s.ids ∧ s'.edges = s.edges ∧ (∀ n, s'.timeOf n = s.timeOf n) := by
-  have h := walk_tid hF hs oldT newT oldL newL hold (hT.chainHyp hF hs hold)
-  have g := walk_sameG s start oldT newT oldL newL
-  refine ⟨fun n hn => h.1 n ((segDown_iff hF hs).2 hn),
-    fun n hn => h.2 n (fun hseg => hn ((segDown_iff hF hs).1 hseg)), g.ids, g.edges, g.time⟩
+  have h := tk_walk_tid hF hs oldT newT oldL newL hold (hT.chainHyp hF hs hold)
+  have g := tk_walk_sameG s start oldT newT oldL newL
+  refine ⟨fun n hn => h.1 n ((tk_segDown_iff hF hs).2 hn),
+    fun n hn => h.2 n (fun hseg => hn ((tk_segDown_iff hF hs).1 hseg)), g.ids, g.edges, g.time⟩
 
 -- walk from 1 (track 1 = {1,2}): 1 and 2 are relabelled, the children of the division are not
-example : exState.Forest ∧ exState.TidOK ∧ exState.tidOf 1 = some 1 ∧
-    (exState.walk 1 1 9 (some 1) none).tidOf 2 = some 9 ∧
-    (exState.walk 1 1 9 (some 1) none).tidOf 3 = some 2 ∧
-    (exState.walk 1 1 9 (some 1) none).tidOf 6 = some 4 :=
-  ⟨forestB_sound (by decide), tidOKB_sound (by decide), by decide, by decide, by decide, by decide⟩
+example : tk_exState.Forest ∧ tk_exState.TidOK ∧ tk_exState.tidOf 1 = some 1 ∧
+    (tk_exState.walk 1 1 9 (some 1) none).tidOf 2 = some 9 ∧
+    (tk_exState.walk 1 1 9 (some 1) none).tidOf 3 = some 2 ∧
+    (tk_exState.walk 1 1 9 (some 1) none).tidOf 6 = some 4 :=
+  ⟨tk_forestB_sound (by decide), tk_tidOKB_sound (by decide), by decide, by decide, by decide, by decide⟩
 #print axioms C04_walk_segment
 
 /-- accepted `uDeleteEdge` re-establishes `TidOK` (with the forest shape and the bound that makes
@@ -65,16 +65,16 @@ theorem C04_step_deleteEdge {s : St} (hF : s.Forest) (hT : s.TidOK)
     (hok : (s.uDeleteEdge e).2 = .ok recs) :
     let s' := (s.uDeleteEdge e).1
     s'.TidOK ∧ s'.Forest ∧ (∀ n t, s'.tidOf n = some t → t ≤ s'.maxTid) := by
-  have h := (uDeleteEdge_tidInv ⟨hF, hT, hmax⟩ hok).1
+  have h := (tk_uDeleteEdge_tidInv ⟨hF, hT, hmax⟩ hok).1
   exact ⟨h.tidOK, h.forest, h.max⟩
 
 -- a non-division edge (1,2): node 2 gets the fresh id 5; a division edge (2,3): sibling 4 joins track 1
-example : exState.Forest ∧ exState.TidOK ∧ (∀ n t, exState.tidOf n = some t → t ≤ exState.maxTid) ∧
-    (∃ recs, (exState.uDeleteEdge (1, 2)).2 = .ok recs) ∧
-    (∃ recs, (exState.uDeleteEdge (2, 3)).2 = .ok recs) ∧
-    (exState.uDeleteEdge (1, 2)).1.tidOf 2 = some 5 ∧
-    (exState.uDeleteEdge (2, 3)).1.tidOf 4 = some 1 :=
-  ⟨forestB_sound (by decide), tidOKB_sound (by decide), tidMaxB_sound (by decide),
+example : tk_exState.Forest ∧ tk_exState.TidOK ∧ (∀ n t, tk_exState.tidOf n = some t → t ≤ tk_exState.maxTid) ∧
+    (∃ recs, (tk_exState.uDeleteEdge (1, 2)).2 = .ok recs) ∧
+    (∃ recs, (tk_exState.uDeleteEdge (2, 3)).2 = .ok recs) ∧
+    (tk_exState.uDeleteEdge (1, 2)).1.tidOf 2 = some 5 ∧
+    (tk_exState.uDeleteEdge (2, 3)).1.tidOf 4 = some 1 :=
+  ⟨tk_forestB_sound (by decide), tk_tidOKB_sound (by decide), tk_tidMaxB_sound (by decide),
    ⟨_, rfl⟩, ⟨_, rfl⟩, by decide, by decide⟩
 #print axioms C04_step_deleteEdge
 
@@ -83,14 +83,14 @@ theorem C04_frame_deleteEdge {s : St} (hF : s.Forest) (hT : s.TidOK)
     (hmax : ∀ n t, s.tidOf n = some t → t ≤ s.maxTid) {e : Edge} {recs}
     (hok : (s.uDeleteEdge e).2 = .ok recs) (n : Node) (hn : ¬ s.Conn n e.1) :
     (s.uDeleteEdge e).1.tidOf n = s.tidOf n := by
-  apply (uDeleteEdge_tidInv ⟨hF, hT, hmax⟩ hok).2
+  apply (tk_uDeleteEdge_tidInv ⟨hF, hT, hmax⟩ hok).2
   intro hanc
-  have hmem : e ∈ s.edgeList := hasEdge_iff.1 (uDeleteEdge_hasEdge hok)
+  have hmem : e ∈ s.edgeList := tk_hasEdge_iff.1 (tk_uDeleteEdge_hasEdge hok)
   exact hn ((hanc.conn (hF.src_mem _ hmem)).symm hF)
 
-example : ¬ exState.Conn 6 2 ∧ (exState.uDeleteEdge (2, 3)).1.tidOf 6 = exState.tidOf 6 := by
+example : ¬ tk_exState.Conn 6 2 ∧ (tk_exState.uDeleteEdge (2, 3)).1.tidOf 6 = tk_exState.tidOf 6 := by
   refine ⟨?_, by decide⟩
   intro h
-  have := (LinOK.of_conn (linOKB_sound (by decide : exState.linOKB = true)) h)
+  have := (LinOK.of_conn (tk_linOKB_sound (by decide : tk_exState.tk_linOKB = true)) h)
   revert this; decide
 #print axioms C04_frame_deleteEdge
